@@ -15,6 +15,7 @@
 #include <sys/types.h>
 #include <fcntl.h>
 #include <signal.h>
+#include <sys/resource.h>
 
 namespace cont
 {
@@ -28,7 +29,7 @@ Hazards& hazards()
 
 static std::string g_tmpdir = ".";
 
-int forkProbe(const std::function<bool()>& fn, int timeoutSec, std::string* errText)
+int forkProbe(const std::function<bool()>& fn, int timeoutSec, std::string* errText, int cpuSec)
 {
    fflush(stdout);
    fflush(stderr);
@@ -46,6 +47,13 @@ int forkProbe(const std::function<bool()>& fn, int timeoutSec, std::string* errT
       int nul = open("/dev/null", O_WRONLY);
       if(nul >= 0) dup2(nul, 1);
       alarm((unsigned)timeoutSec);
+      if(cpuSec > 0)
+      {
+         struct rlimit rl;
+         rl.rlim_cur = (rlim_t)cpuSec;
+         rl.rlim_max = (rlim_t)cpuSec + 1;
+         setrlimit(RLIMIT_CPU, &rl);
+      }
       bool ok = false;
       try
       {
@@ -73,7 +81,7 @@ int forkProbe(const std::function<bool()>& fn, int timeoutSec, std::string* errT
    }
    unlink(errFile.c_str());
    if(WIFEXITED(st)) return WEXITSTATUS(st) == 0 ? 0 : 1;
-   if(WIFSIGNALED(st) && WTERMSIG(st) == SIGALRM) return 3;
+   if(WIFSIGNALED(st) && (WTERMSIG(st) == SIGALRM || WTERMSIG(st) == SIGXCPU || WTERMSIG(st) == SIGKILL)) return 3;
    return 2;
 }
 
@@ -186,6 +194,61 @@ void probeHazards(Unit* reporter)
    S.count(std::string("hazard.arrayInsert0.") + (H.arrayInsert0 ? "present" : "absent"));
    S.count(std::string("hazard.svsetAddKeys0.") + (H.svsetAddKeys0 ? "present" : "absent"));
    S.count(std::string("hazard.xtendLastStale.") + (H.xtendLastStale ? "present" : "absent"));
+}
+
+struct PK
+{
+   int a;
+   friend int operator==(const PK& x, const PK& y)
+   {
+      return x.a == y.a;
+   }
+};
+static int pkHash(const PK* k)
+{
+   return (k->a % 7) * 3;
+}
+// DataHashTable::reMax() re-inserts through add(), which calls reMax() again with a size computed from the partial count; for
+// growth factors below 1/SOPLEX_HASHTABLE_FILLFACTOR the table ends up full and add() probes forever.  The in-process
+// workload therefore only uses factors >= 1.5; the defect itself is observed here, in a forked child with a CPU limit.
+void probeHashRemax(Unit* reporter)
+{
+   static bool done = false;
+   if(done) return;
+   done = true;
+   std::string err;
+   int r = forkProbe([]()
+   {
+      for(int n = 0; n < 40; n++)
+      {
+         DataHashTable<PK, int> h(pkHash, 3, 0, 1.25);
+         for(int i = 0; i < n; i++)
+         {
+            PK k;
+            k.a = i;
+            h.add(k, i);
+         }
+         h.reMax();
+         for(int i = 0; i < n; i++)
+         {
+            PK k;
+            k.a = i;
+            if(!h.has(k) || h[k] != i) return false;
+         }
+      }
+      return true;
+   }, 120, &err, 2);
+   sink().count(std::string("probe.hashRemaxSmallFactor.") + (r == 0 ? "ok" : r == 1 ? "wrong" : r == 2 ? "crash" : "hang"));
+   if(r != 0 && reporter)
+   {
+      std::string savedName = reporter->name;
+      reporter->name = "DataHashTable";
+      reporter->fail("reMax(factor=1.25)", r == 3 ? "probe:hang" : r == 2 ? "probe:crash" : "probe:wrong-result",
+                     "DataHashTable(hash, 3, 0, factor 1.25) with n = 0..39 items, reMax(): forked probe did not finish within 2 s of CPU time "
+                     "(add() inside reMax() calls reMax() with int(factor * partial count) + 1, the table ends up full and add() probes forever)");
+      reporter->name = savedName;
+      reporter->bad = false;
+   }
 }
 
 struct UnitDesc
